@@ -489,12 +489,13 @@ class Collector(object):
     """name the function of an exemption has today (it may have been moved
     or renamed; sa/roles.py identifies it)."""
     cache = self.__dict__.setdefault('_pn', {})
-    if fq not in cache:
+    key = id(fq) if callable(fq) else fq
+    if key not in cache:
       try:
-        cache[fq] = self.an.repo.func(fq).fq
+        cache[key] = fq(self.an.repo) if callable(fq) else self.an.repo.func(fq).fq
       except Exception:
-        cache[fq] = fq
-    return cache[fq]
+        cache[key] = None if callable(fq) else fq
+    return cache[key]
 
   def site(self, fi, node, source, kind, verdict, reason, chain):
     self.sites.append(Site(fi, node, source, kind, verdict, reason, list(chain)))
